@@ -197,7 +197,7 @@ fn item_of(w: &World, t: u32) -> Option<usize> {
         return Some(*i);
     }
     let src = w.co.src?;
-    if w.toks.get(t as usize)?.producer != Some(src) {
+    if w.toks.get(crate::val::index_of(t))?.producer != Some(src) {
         return None;
     }
     w.nodes[src].items().iter().position(|(_, s)| *s == Shape::T(t))
@@ -755,7 +755,7 @@ pub fn check_co(w: &mut World, case: &CoCase) {
             Terminal::TryForEach | Terminal::CollectResult => match res {
                 Shape::Ok(inner) => {
                     if let Some((_, t)) = errs.first() {
-                        viol.push((Oracle::Co14, format!("the operation resolved Ok although a closure future had resolved Err(t{})", t)));
+                        viol.push((Oracle::Co14, format!("the operation resolved Ok although a closure future had resolved Err(t{})", crate::val::index_of(*t))));
                     } else if term == Terminal::CollectResult && complete {
                         if let Shape::L(list) = &**inner {
                             // C14 speaks about the Ok values the item futures produced;
@@ -788,7 +788,7 @@ pub fn check_co(w: &mut World, case: &CoCase) {
                     if !errs.iter().any(|(_, e)| Some(*e) == t) {
                         viol.push((
                             Oracle::Co14,
-                            format!("the operation resolved Err({}) but no closure future returned that error (errors returned: {:?})", x.show(), errs.iter().map(|e| e.1).collect::<Vec<_>>()),
+                            format!("the operation resolved Err({}) but no closure future returned that error (errors returned: {:?})", x.show(), errs.iter().map(|e| crate::val::index_of(e.1)).collect::<Vec<_>>()),
                         ));
                     }
                 }
@@ -801,14 +801,14 @@ pub fn check_co(w: &mut World, case: &CoCase) {
     // nothing else completes once an error has come out of a closure future
     if let Some((t_err, etok)) = errs.first().cloned() {
         if src_item_clocks.iter().any(|c| *c > t_err) {
-            viol.push((Oracle::Co14, format!("a further item was taken from the source after a closure future had resolved Err(t{})", etok)));
+            viol.push((Oracle::Co14, format!("a further item was taken from the source after a closure future had resolved Err(t{})", crate::val::index_of(etok))));
         }
         for r in &w.co.works {
             let n = &w.nodes[r.node];
             if n.created_at > t_err {
                 viol.push((
                     Oracle::Co14,
-                    format!("{} was invoked (for source position {:?}) after a closure future had resolved Err(t{})", stage_name(case, r.stage), r.item, etok),
+                    format!("{} was invoked (for source position {:?}) after a closure future had resolved Err(t{})", stage_name(case, r.stage), r.item, crate::val::index_of(etok)),
                 ));
                 break;
             }
@@ -819,7 +819,7 @@ pub fn check_co(w: &mut World, case: &CoCase) {
                         "the future returned by {} for source position {:?} ran to completion after a closure future had resolved Err(t{}): in-flight futures must be dropped unfinished",
                         stage_name(case, r.stage),
                         r.item,
-                        etok
+                        crate::val::index_of(etok)
                     ),
                 ));
                 break;
